@@ -97,9 +97,11 @@ def impl_replay(job):
                         g2 = sim.py_simulate(itf, tp).py_get_result()
                         # ... and a fourth run with OTHER draws through the same simulator object: results are values, a later
                         # run does not alter the rows an earlier run returned
-                        brandom.py_verif_script([0.37, 0.81] * (len(draws) + 40))
-                        sim.py_simulate(itf, tp)
+                        # (an ordinary seeded run on a grid with as many points over a 1000 times shorter horizon: it cannot
+                        #  run long whatever the network does)
                         brandom.py_verif_script(None)
+                        brandom.py_seed_random(4242 + len(draws))
+                        sim.py_simulate(itf, tp[0] + (np.array(tp, dtype=float) - tp[0]) * 1e-3)
                         for tag, g in (("second", g1), ("third (same simulator object)", g2)):
                             rows2 = [[float(g[i, c]) for c in cols] for i in range(g.shape[0])]
                             if rows2 != want:
@@ -198,7 +200,7 @@ def run(tier):
     recs = r1.records + r2.records
     # first pass under the code's own convention; behaviours that fail are retried under the others
     def do(recs_, convs):
-        jobs = [{"recs": ch, "convs": convs, "via": i % 3} for i, ch in enumerate(pool.chunks(recs_, 60))]
+        jobs = [{"recs": ch, "convs": convs, "via": i % 3} for i, ch in enumerate(pool.chunks(recs_, 20))]
         results = pool.run_jobs("c05", "impl_replay", jobs)
         flat = []
         for job, res in zip(jobs, results):
